@@ -1287,16 +1287,27 @@ def deck_stream(res, rng, quick):
         for rep in range(2 if quick else 6):
             corpus.append((dict(force), random.Random(4242 + 97 * j + rep)))
     n_valid += len(corpus)
+    # broken corpus: the malformed shapes a mutation of the dimension checks or
+    # of the base-vector code needed, from fixed seeds (same decks every run)
+    broken_corpus = [(fault, random.Random(777 + 31 * j))
+                     for j, fault in enumerate(BROKEN_CORPUS)]
+    n_broken += len(broken_corpus)
     for k in range(n_valid + n_broken):
         broken = k >= n_valid
         force = {}
         gen_rng = rng
+        forced_fault = None
         if k < len(corpus):
             force, gen_rng = corpus[k]
+        elif broken and k - n_valid < len(broken_corpus):
+            forced_fault, gen_rng = broken_corpus[k - n_valid]
+            force = {'d': 2, 'kind': 'ortho', 'rpp': False,
+                     'homogeneous': False, 'nested': False}
         deck, meta = c06_gen.gen_deck(gen_rng, force)
         fault = None
         if broken:
-            fault = c06_gen.break_deck(rng, deck, meta)
+            fault = c06_gen.break_deck(gen_rng if forced_fault else rng, deck,
+                                       meta, forced_fault)
         text = deckmod.render(deck)
         args = deckmod.lattice_args(deck)
         # the corpus, 40 random decks and every broken deck run under the
@@ -1414,6 +1425,10 @@ def deck_stream(res, rng, quick):
               lambda m: f'fault={m["fault"]} out={m["out"]} deck=\n{m["deck"]}')
     return bad
 
+
+BROKEN_CORPUS = ['padding_nonzero', 'too_few_ranges', 'range_in_padding',
+                 'shifted_ranges', 'too_many_ranges', 'same_plane',
+                 'drop_surface', 'extra_pair']
 
 CORPUS_SHAPES = [
     # rotating fill transformation on 1-D, 2-D, 3-D lattices (a82b50a)
